@@ -83,7 +83,7 @@ func (e *Engine) checkContract(con *Contract) (*checkedContract, error) {
 		sig := tv.(*types.Signature)
 		ci.sig = sig
 		_ = ft
-		if strings.Contains(con.name, ".") && isInterfaceMethodName(con.name) {
+		if (strings.Contains(con.name, ".") && isInterfaceMethodName(con.name)) || strings.HasPrefix(con.name, "method:") {
 			ci.params = append(ci.params, "recv")
 			ci.ptypes = append(ci.ptypes, types.NewInterfaceType(nil, nil))
 			extraParams = append(extraParams, "recv any")
